@@ -4,13 +4,15 @@ import (
 	"os"
 	"path/filepath"
 	"syscall"
+	"time"
 
 	"github.com/spf13/afero"
 )
 
-// PosixMem is afero.MemMapFs with the two POSIX rules that MemMapFs lacks and that lock protocols
+// PosixMem is afero.MemMapFs with the three POSIX rules that MemMapFs lacks and that lock protocols
 // built on directories depend on: removing a non-empty directory fails with ENOTEMPTY, and creating
-// an entry below a missing parent fails with ENOENT. Everything else is MemMapFs. It is used as the
+// an entry below a missing parent fails with ENOENT, and creating or removing an entry updates the
+// modification time of its parent directory. Everything else is MemMapFs. It is used as the
 // in-memory stand-in of the OS backend ("several processes on one POSIX filesystem") so that
 // exhaustive exploration does not pay for system calls; the raw MemMapFs and the real OS backend
 // are explored as well, as separate scenarios.
@@ -36,7 +38,22 @@ func (p *PosixMem) Remove(name string) error {
 			}
 		}
 	}
-	return p.MemMapFs.Remove(name)
+	err = p.MemMapFs.Remove(name)
+	if err == nil {
+		p.touchParent(name)
+	}
+	return err
+}
+
+func (p *PosixMem) touchParent(name string) {
+	parent := filepath.Dir(filepath.Clean(name))
+	now := time.Now()
+	_ = p.MemMapFs.Chtimes(parent, now, now)
+}
+
+func (p *PosixMem) exists(name string) bool {
+	_, err := p.MemMapFs.Stat(name)
+	return err == nil
 }
 
 func (p *PosixMem) parentOK(name string) error {
@@ -58,7 +75,11 @@ func (p *PosixMem) Mkdir(name string, perm os.FileMode) error {
 	if err := p.parentOK(name); err != nil {
 		return err
 	}
-	return p.MemMapFs.Mkdir(name, perm)
+	err := p.MemMapFs.Mkdir(name, perm)
+	if err == nil {
+		p.touchParent(name)
+	}
+	return err
 }
 
 func (p *PosixMem) OpenFile(name string, flag int, perm os.FileMode) (afero.File, error) {
@@ -67,12 +88,22 @@ func (p *PosixMem) OpenFile(name string, flag int, perm os.FileMode) (afero.File
 			return nil, err
 		}
 	}
-	return p.MemMapFs.OpenFile(name, flag, perm)
+	existed := p.exists(name)
+	f, err := p.MemMapFs.OpenFile(name, flag, perm)
+	if err == nil && !existed {
+		p.touchParent(name)
+	}
+	return f, err
 }
 
 func (p *PosixMem) Create(name string) (afero.File, error) {
 	if err := p.parentOK(name); err != nil {
 		return nil, err
 	}
-	return p.MemMapFs.Create(name)
+	existed := p.exists(name)
+	f, err := p.MemMapFs.Create(name)
+	if err == nil && !existed {
+		p.touchParent(name)
+	}
+	return f, err
 }
